@@ -123,6 +123,9 @@ func cmdRun(args []string) int {
 			if v, ok := in.Params["maxDigits"]; ok {
 				opt.MaxDigits, _ = strconv.Atoi(v)
 			}
+			if v, ok := in.Params["feasTimeout"]; ok {
+				opt.FeasTimeoutMs, _ = strconv.Atoi(v)
+			}
 			if v, ok := in.Params["maxInstr"]; ok {
 				opt.MaxInstr, _ = strconv.ParseInt(v, 10, 64)
 			}
